@@ -335,12 +335,28 @@ func (m *MeasureModel) GenBatch(tp *simcore.Tape, o BatchOpts, batchNo int) []*M
 			switch {
 			case o.SmallField && f.Type == databasev1.FieldType_FIELD_TYPE_INT:
 				v := int64(tp.Range(-100, 100))
-				if tp.Bool(1, 40) {
+				switch tp.Weighted(30, 1, 6, 6) {
+				case 1:
 					v = []int64{1 << 40, -(1 << 40), 1<<62 - 1, -(1 << 62)}[tp.Choose(4)]
+				case 2: // zeros: partial sums that are exactly zero
+					v = 0
+				case 3: // cancels the previous row's value
+					if len(out) > 0 {
+						v = -out[len(out)-1].Fields[f.Name].GetInt().GetValue()
+					}
 				}
 				r.Fields[f.Name] = FInt(v)
 			case o.SmallField && f.Type == databasev1.FieldType_FIELD_TYPE_FLOAT:
-				r.Fields[f.Name] = FFloat(float64(tp.Range(-2000, 2000)) / 4)
+				v := float64(tp.Range(-2000, 2000)) / 4
+				switch tp.Weighted(8, 1, 1) {
+				case 1:
+					v = 0
+				case 2:
+					if len(out) > 0 {
+						v = -out[len(out)-1].Fields[f.Name].GetFloat().GetValue()
+					}
+				}
+				r.Fields[f.Name] = FFloat(v)
 			default:
 				r.Fields[f.Name] = GenField(tp, f.Type, o.NullOK)
 			}
